@@ -128,6 +128,14 @@ func p7Session(c *WCase, res *WResult) {
 			})
 			res.stage("HasCertificate", func() { out = append(out, fmt.Sprint(p.HasCertificate(cc))) })
 		}
+		// re-serialising the signed attributes of what was parsed
+		res.stage("Attributes.Marshal", func() {
+			for _, si := range p.SignerInfo {
+				if si != nil && si.AuthenticatedAttributes != nil {
+					out = append(out, fmt.Sprint(len(si.AuthenticatedAttributes.Marshal())))
+				}
+			}
+		})
 	}
 	var a *authenticode.Authenticode
 	res.stage("ParseAuthenticode", func() { a, err = authenticode.ParseAuthenticode(c.In) })
@@ -429,6 +437,10 @@ func judgeOutcome(r *mon.Run, prop string, entry string, h hostile, rs WResult) 
 	}
 	for _, st := range rs.Stages {
 		limA := uint64(allocBase + allocPerByte*len(h.in))
+		if st.Name == "Attributes.Marshal" {
+			// one small builder per attribute: still proportional to the input, with a larger factor
+			limA = uint64(allocBase + 64*len(h.in))
+		}
 		if st.Name == "Parse" {
 			// debug/pe (standard library) reads string and symbol tables through
 			// saferio, which allocates one 10 MiB chunk per declared oversize read
